@@ -391,7 +391,8 @@ func c03NoEscape(c *Ctx, entry *ssa.Function, rr *ReachResult) {
 
 // returnPair resolves the (value, error) a return hands back, looking through named-result cells.
 func returnPair(ret *ssa.Return) (ssa.Value, ssa.Value) {
-	get := func(v ssa.Value) ssa.Value {
+	var getN func(v ssa.Value, depth int) ssa.Value
+	getN = func(v ssa.Value, depth int) ssa.Value {
 		u, ok := v.(*ssa.UnOp)
 		if !ok {
 			return v
@@ -400,16 +401,21 @@ func returnPair(ret *ssa.Return) (ssa.Value, ssa.Value) {
 		if !ok {
 			return v
 		}
-		// the last store to the cell before the load, in the same block
+		// the last store to the cell before the load, in the same block (a value copied from cell to cell, as the
+		// named results of a function with a deferred closure are, is followed back)
 		b := u.Block()
 		idx := posOf(u).I
 		for i := idx - 1; i >= 0; i-- {
 			if st, ok := b.Instrs[i].(*ssa.Store); ok && st.Addr == ssa.Value(a) {
+				if depth < 4 {
+					return getN(st.Val, depth+1)
+				}
 				return st.Val
 			}
 		}
 		return v
 	}
+	get := func(v ssa.Value) ssa.Value { return getN(v, 0) }
 	if len(ret.Results) != 2 {
 		return nil, nil
 	}
@@ -456,6 +462,25 @@ func (c *Ctx) shapeOK(f *ssa.Function, depth int, seen map[*ssa.Function]bool) (
 				ok, why = false, "returns the pair of "+c.P.FuncKey(rv[0].Fn)+", which "+w
 			}
 			return
+		}
+		// the value of such a pair passed through a function that hands nil back as nil (`return try2Float64(res), err`)
+		if call, isC := v.(*ssa.Call); isC && len(call.Call.Args) == 1 && depth < 4 {
+			if g := calleeOf(call); g != nil && c.inModule(g) && len(g.Params) == 1 && len(g.Blocks) > 0 {
+				r := c.foldWith(g, 1, pinTypeCase(g.Params[0], "nil"))
+				nilKept := len(r.Returns) > 0
+				for _, gr := range r.Returns {
+					if len(gr.Results) != 1 || !(gr.Results[0] == ssa.Value(g.Params[0]) || isNilConst(gr.Results[0])) {
+						nilKept = false
+					}
+				}
+				ra, re := plainOrigins.Roots(call.Call.Args[0]), plainOrigins.Roots(e)
+				if nilKept && len(ra) == 1 && len(re) == 1 && ra[0].Kind == "call" && ra[0].V == re[0].V && ra[0].Idx == 0 && re[0].Idx == 1 && ra[0].Fn != nil && c.inModule(ra[0].Fn) {
+					if sub, w := c.shapeOK(ra[0].Fn, depth+1, seen); !sub {
+						ok, why = false, "returns the pair of "+c.P.FuncKey(ra[0].Fn)+", which "+w
+					}
+					return
+				}
+			}
 		}
 		ok, why = false, "at "+c.P.InstrPos(ret)+" a possibly non-nil value is returned together with a possibly non-nil error"
 	})
@@ -680,9 +705,113 @@ func (c *Ctx) boundedLoop(f *ssa.Function, l *Loop) (bool, string) {
 		if stepOK && startOK && boundOK {
 			return true, ""
 		}
+		// two indices that meet: `for i, j := 0, n-1; i < j; i, j = i+1, j-1` (the bound is a loop-carried value that
+		// only goes down while the counter only goes up)
+		if stepOK && startOK {
+			if q, isPhi := bo.Y.(*ssa.Phi); isPhi && q.Block() == l.Header {
+				down := true
+				for i, e := range q.Edges {
+					if !l.Body[l.Header.Preds[i]] {
+						continue
+					}
+					st, ok := e.(*ssa.BinOp)
+					if !ok || st.X != ssa.Value(q) {
+						down = false
+						continue
+					}
+					n, isK := constIntArg(st.Y)
+					if !(isK && (st.Op == token.SUB && n >= 0 || st.Op == token.ADD && n <= 0)) {
+						down = false
+					}
+				}
+				if down {
+					return true, ""
+				}
+			}
+		}
 		return false, fmt.Sprintf("counting loop with step+1=%v, invariant length bound=%v", stepOK, boundOK)
 	}
+	// a walk down the tree: some loop-carried node value is, on every way round, replaced by a child of itself (a
+	// field of the node it currently is); trees are finite
+	for _, in := range l.Header.Instrs {
+		phi, ok := in.(*ssa.Phi)
+		if !ok {
+			break
+		}
+		if _, isIface := phi.Type().Underlying().(*types.Interface); !isIface {
+			if _, isPtr := phi.Type().Underlying().(*types.Pointer); !isPtr {
+				continue
+			}
+		}
+		descends := true
+		back := 0
+		for i, e := range phi.Edges {
+			if !l.Body[l.Header.Preds[i]] {
+				continue
+			}
+			back++
+			if !childOf(e, phi, 0) {
+				descends = false
+			}
+		}
+		if back > 0 && descends {
+			return true, ""
+		}
+	}
 	return false, "no recognised loop form"
+}
+
+// childOf: v is read from a field of the node cur holds (through type assertions, conversions and phis of such reads).
+func childOf(v ssa.Value, cur ssa.Value, depth int) bool {
+	if depth > 6 {
+		return false
+	}
+	switch x := v.(type) {
+	case *ssa.ChangeInterface:
+		return childOf(x.X, cur, depth+1)
+	case *ssa.MakeInterface:
+		return childOf(x.X, cur, depth+1)
+	case *ssa.ChangeType:
+		return childOf(x.X, cur, depth+1)
+	case *ssa.Phi:
+		if x == cur {
+			return false
+		}
+		for _, e := range x.Edges {
+			if !childOf(e, cur, depth+1) {
+				return false
+			}
+		}
+		return len(x.Edges) > 0
+	case *ssa.UnOp:
+		fa, ok := x.X.(*ssa.FieldAddr)
+		if !ok {
+			return false
+		}
+		return isNodeItself(fa.X, cur, 0)
+	}
+	return false
+}
+
+// isNodeItself: v is cur under a type assertion / conversion (the node whose field is read).
+func isNodeItself(v ssa.Value, cur ssa.Value, depth int) bool {
+	if v == cur {
+		return true
+	}
+	if depth > 4 {
+		return false
+	}
+	switch x := v.(type) {
+	case *ssa.TypeAssert:
+		return isNodeItself(x.X, cur, depth+1)
+	case *ssa.Extract:
+		if ta, ok := x.Tuple.(*ssa.TypeAssert); ok && x.Index == 0 {
+			return isNodeItself(ta.X, cur, depth+1)
+		}
+	case *ssa.ChangeInterface:
+		return isNodeItself(x.X, cur, depth+1)
+	}
+	return false
 }
 
 // c03Locks: evaluation terminates. A lock taken in evaluator-reachable code must be released by a deferred unlock
